@@ -5135,10 +5135,11 @@ where
             return Ok(0);
         };
 
-        // Transactional guard: the post-removal flip repair can fail. If it does, roll back so
-        // that an `Err` leaves the triangulation unchanged (same contract as `insert`).
-        let snapshot = (self.insertion_state.delaunay_repair_policy != DelaunayRepairPolicy::Never)
-            .then(|| self.tri.tds.clone());
+        // Transactional guard: the inverse k=1 fast path and the post-removal flip repair can
+        // fail after they have started to edit the complex. If they do, roll back so that an
+        // `Err` leaves the triangulation unchanged (same contract as `insert`).
+        let snapshot = self.tri.tds.clone();
+        let generation_before = self.tri.tds.generation();
 
         // Fast path: inverse k=1 flip when the vertex star is a simplex.
         let mut seed_cells: Option<CellKeyBuffer> = None;
@@ -5152,15 +5153,22 @@ where
                 info.removed_cells.len()
             }
             Err(FlipError::NeighborWiring { message }) => {
+                self.tri.tds = snapshot;
                 return Err(TdsValidationError::InconsistentDataStructure {
                     message: format!("inverse k=1 flip failed during remove_vertex: {message}"),
                 }
                 .into());
             }
-            Err(_) => self
-                .tri
-                .remove_vertex(vertex)
-                .map_err(TriangulationValidationError::from)?,
+            Err(_) => {
+                // The fast path may have failed after its first mutation (every mutation bumps
+                // the generation): start the fan retriangulation from the original complex.
+                if self.tri.tds.generation() != generation_before {
+                    self.tri.tds = snapshot.clone();
+                }
+                self.tri
+                    .remove_vertex(vertex)
+                    .map_err(TriangulationValidationError::from)?
+            }
         };
 
         verif_tick!("remove/removed");
@@ -5169,9 +5177,7 @@ where
             let seed_ref = seed_cells.as_deref();
             let (tds, kernel) = (&mut self.tri.tds, &self.tri.kernel);
             if let Err(e) = repair_delaunay_with_flips_k2_k3(tds, kernel, seed_ref, topology) {
-                if let Some(tds) = snapshot {
-                    self.tri.tds = tds;
-                }
+                self.tri.tds = snapshot;
                 return Err(TdsValidationError::InconsistentDataStructure {
                     message: format!("Delaunay repair failed after vertex removal: {e}"),
                 }
